@@ -47,11 +47,13 @@ def render (ny nx : Nat) (rows : List Row) : Nat → Nat → Rat :=
 /-- does the output carry units: attached by a row that overlaps and is a Quantity; if the source
     conditions this on the row index, only row 0 can attach them -/
 def outputHasUnit (ny nx : Nat) (rows : List Row) : Bool :=
-  if unitsDependOnRowIndex then
+  (if unitsDependOnRowIndex then
     match rows with
     | r :: _ => (window ny nx r).isSome && r.hasUnit
     | [] => false
-  else rows.any fun r => (window ny nx r).isSome && r.hasUnit
+  else rows.any fun r => (window ny nx r).isSome && r.hasUnit)
+  -- after the loop: the model still holds the parameters of the LAST row; its value's unit is attached if nothing was
+  || (attachesUnitAfterLoop && (rows.getLast?.map (·.hasUnit)).getD false)
 
 /-- `make_residual_image` = data − model image -/
 def residual (data : Nat → Nat → Rat) (ny nx : Nat) (rows : List Row) : Nat → Nat → Rat :=
